@@ -627,7 +627,10 @@ const prelude = `
 (declare-fun gs.fmtfloat (F64) Str)
 (declare-fun gs.frombyte ((_ BitVec 8)) Str)
 (declare-fun f.log (Real) Real)
-(declare-fun f.trunc (F64) Int)
+(declare-fun gs.sorted ((Array Int Str) Int Int) Bool)
+(declare-fun int.sorted ((Array Int Int) Int Int) Bool)
+(define-fun f.trunc ((a F64)) Int (ite (>= (f.val a) 0.0) (to_int (f.val a)) (- (to_int (- (f.val a))))))
+(define-fun f.floor ((a F64)) F64 (mkF64 (f.nan a) (to_real (to_int (f.val a)))))
 (define-fun godiv ((a Int) (b Int)) Int (ite (>= a 0) (ite (> b 0) (div a b) (- (div a (- b)))) (ite (> b 0) (- (div (- a) b)) (div (- a) (- b)))))
 (define-fun gomod ((a Int) (b Int)) Int (- a (* b (godiv a b))))
 (define-fun f.of ((x Real)) F64 (mkF64 false x))
@@ -642,6 +645,8 @@ const prelude = `
 (define-fun f.eq ((a F64) (b F64)) Bool (and (not (f.nan a)) (not (f.nan b)) (= (f.val a) (f.val b))))
 (assert (forall ((a Str) (b Str)) (! (= (gs.len (gs.cat a b)) (+ (gs.len a) (gs.len b))) :pattern ((gs.cat a b)))))
 (assert (forall ((a Str)) (! (>= (gs.len a) 0) :pattern ((gs.len a)))))
+(assert (forall ((A (Array Int Str)) (o Int) (n Int)) (! (= (gs.sorted A o n) (forall ((i Int) (j Int)) (=> (and (<= o i) (< i j) (< j (+ o n))) (not (gs.lt (select A j) (select A i)))))) :pattern ((gs.sorted A o n)))))
+(assert (forall ((A (Array Int Int)) (o Int) (n Int)) (! (= (int.sorted A o n) (forall ((i Int) (j Int)) (=> (and (<= o i) (< i j) (< j (+ o n))) (<= (select A i) (select A j))))) :pattern ((int.sorted A o n)))))
 (assert (forall ((a Str) (b Str) (j Int)) (! (= (gs.at (gs.cat a b) j) (ite (< j (gs.len a)) (gs.at a j) (gs.at b (- j (gs.len a))))) :pattern ((gs.at (gs.cat a b) j)))))
 (assert (forall ((A (Array Int (_ BitVec 8))) (o Int) (n Int)) (! (=> (>= n 0) (= (gs.len (gs.frombytes A o n)) n)) :pattern ((gs.frombytes A o n)))))
 (assert (forall ((A (Array Int (_ BitVec 8))) (o Int) (n Int) (j Int)) (! (=> (and (<= 0 j) (< j n)) (= (gs.at (gs.frombytes A o n) j) (select A (+ o j)))) :pattern ((gs.at (gs.frombytes A o n) j)))))
